@@ -487,7 +487,27 @@ def add_zoo(w, parts=ZOO_ALL):
             x, _ = w.make_gene("X1", w.chrom_order[0], common, rng.choice("+-"), n_exons=5, n_iso=2, hidden_kinds=("nnic_skip",))
             _reads_for(w, x)
             for ci, chrom in enumerate(w.chrom_order[1:]):
-                c = clone_gene(w, x, "X%d" % (ci + 2), chrom, x.start)
+                if ci % 3 == 1:
+                    # same exon coordinates, OPPOSITE strand (splice sites canonical for that strand): nothing learnt about an intron
+                    # (strand, canonical sites, annotated or not) on one chromosome is true on another one
+                    other = "-" if x.strand == "+" else "+"
+                    c = Gene("X%d" % (ci + 2), chrom, other)
+                    for k, t in enumerate(x.transcripts):
+                        c.transcripts.append(Transcript("%s.t%d" % (c.id, k + 1), c.id, chrom, other, list(t.exons), True, t.kind))
+                    for k, t in enumerate(x.hidden):
+                        c.hidden.append(Transcript("%s.h%d" % (c.id, k + 1), c.id, chrom, other, list(t.exons), False, t.kind))
+                    for t in c.transcripts + c.hidden:
+                        for intr in t.introns:
+                            w.plant_sites(chrom, intr, other)
+                    w.genes.append(c)
+                else:
+                    c = clone_gene(w, x, "X%d" % (ci + 2), chrom, x.start)
+                    if c and ci % 3 == 0 and len(c.transcripts) > 1:
+                        # same sequence and coordinates, but the second isoform is NOT annotated on this chromosome
+                        for t in c.transcripts[1:]:
+                            t.annotated = False
+                            c.hidden.append(t)
+                        c.transcripts = c.transcripts[:1]
                 if c:
                     _reads_for(w, c)
             placed.add("same_coords")
